@@ -722,6 +722,8 @@ def fail_histories(atoms, limit=None, rng=None, extra=True):
             h2 = list(h)
             h2.insert(rng.randint(j + 1, len(h)), [h[j][0], not h[j][1]])
             more.append(h2)
+            if len(h) > 1:
+                more.append(h[:-1])      # some member is never decided
         hs = hs + more
     return hs
 
@@ -1102,7 +1104,7 @@ def run(tier, seed, replay=None):
         for k in (2, 3, 4):
             fs_k = all_formulas(k)
             if k == 4 and not thorough:
-                fs_k = rng.sample(fs_k, 20)
+                fs_k = rng.sample(fs_k, 12)
             for f in fs_k:
                 for kind in ("await", "when"):
                     add_fjob(kind, [f], fail_histories(list(range(k)), cap, rng), f"fail-one-group-{k}")
